@@ -31,6 +31,34 @@ def rng_for(seed, name):
     return random.Random("%d/%s" % (seed, name))
 
 
+def mined_values(limit=None):
+    """Integer literals of the crate's current source (string literals and comments stripped), each with
+    its two neighbours: a special case keyed on a number (a width switch, a fast path, a cut-off)
+    introduced by an edit gets cases on both sides of it without anybody listing the number by hand."""
+    import re
+    repo = os.environ.get("VERIF_REPO", "/repo")
+    vals = set()
+    for f in sorted(glob.glob(os.path.join(repo, "src", "**", "*.rs"), recursive=True)):
+        try:
+            src = open(f, errors="replace").read()
+        except OSError:
+            continue
+        src = re.sub(r'"(?:\\.|[^"\\])*"', '""', src)
+        src = re.sub(r"//[^\n]*", "", src)
+        for m in re.finditer(r"(?<![\w.])(0x[0-9a-fA-F_]+|0b[01_]+|\d[\d_]*)(?:_?(?:usize|u8|u16|u32|u64|u128|i8|i16|i32|i64|isize))?\b", src):
+            try:
+                c = int(m.group(1).replace("_", ""), 0)
+            except ValueError:
+                continue
+            for d in (-1, 0, 1):
+                if 0 <= c + d <= btc.U64MAX:
+                    vals.add(c + d)
+    out = sorted(vals)
+    if limit is not None:
+        out = [v for v in out if v <= limit]
+    return out
+
+
 # ---------------------------------------------------------------- S_len
 def stream_len(tier, seed):
     rng = rng_for(seed, "len")
@@ -63,6 +91,7 @@ def stream_len(tier, seed):
     nrand = 2000 if tier == "quick" else 200000
     for _ in range(nrand):
         vals.add(rng.randrange(1 << rng.choice([8, 16, 17, 24, 32, 33, 48, 63, 64])))
+    vals.update(mined_values())
     for v in sorted(vals):
         if v <= 0xFFFFFFFF:
             add(b"\xfe" + struct.pack("<I", v), counters if v in (0xFFFF, 0x10000, 0xFFFFFFFF) else (rng.choice(counters),))
@@ -126,6 +155,10 @@ def stream_num(tier, seed):
                 vals32.add(v)
             if 0 <= v < (1 << 64):
                 vals64.add(v)
+    for v in mined_values():
+        vals64.add(v)
+        if v < (1 << 32):
+            vals32.add(v)
     nr = 3000 if tier == "quick" else 300000
     for _ in range(nr):
         vals32.add(rng.randrange(1 << 32))
@@ -486,6 +519,64 @@ def stream_struct(tier, seed):
             op = txid + struct.pack("<I", vout)
             group("outpoint", op, [("txid", 0, 32), ("vout", 32, 4)], 0, tag="opboundary", prefixes=False)
             group("txin", op + b"\x00" + struct.pack("<I", 0xFFFFFFFF), [], 0, tag="opboundary", prefixes=False)
+    # numbers mined from the current source (see mined_values): as payload length, element count, total
+    # input length, output index, amount, version / lock time / sequence
+    mined = mined_values()
+    nbig = 0
+    for v in mined:
+        if v <= 70000 and (v <= 1500 or nbig < (16 if quick else 40)):
+            isbig = v > 1500
+            nbig += isbig
+            payload = btc.rand_bytes(rng, v)
+            group("script", btc.cs(v) + payload + b"\x31", [], 0, tag="mined:len", big=isbig, prefixes=not isbig)
+            group("txout", struct.pack("<Q", v) + btc.cs(v) + payload, [], 0, tag="mined:len", big=isbig, prefixes=False)
+            group("witness", b"\x01" + btc.cs(v) + payload, [], 0, tag="mined:len", big=isbig, prefixes=False)
+            if v >= 12:
+                # total input length exactly v
+                outs = [{"value": v, "spk": b""}, {"value": 1, "spk": b""}]
+                base = len(btc.obj_bytes("txouts", outs)[0])
+                pad = v - base
+                if pad >= 0:
+                    for extra in (0, 1, 2, 3):
+                        outs[1]["spk"] = bytes(max(0, pad - extra))
+                        bb = btc.obj_bytes("txouts", outs)[0]
+                        if len(bb) == v:
+                            group("txouts", bb, [], 2, tag="mined:total", big=isbig, prefixes=False, maxbrk=2)
+                            break
+            if v >= 70:
+                tx = btc.rand_tx(rng, nin=1, nout=1, segwit=(v % 2 == 0))
+                tx["outs"][0]["spk"] = b""
+                base = len(btc.tx_bytes(tx)[0])
+                for extra in (0, 1, 2, 3):
+                    tx["outs"][0]["spk"] = bytes(max(0, v - base - extra))
+                    tb, tf = btc.tx_bytes(tx)
+                    if len(tb) == v:
+                        group("transaction", tb, tf, nbreak_tx(tx), tag="mined:total", big=isbig, prefixes=False, maxbrk=3)
+                        break
+        if v <= (300 if quick else 1200):
+            outs = [{"value": (k * 3 + v) % 50, "spk": b""} for k in range(v)]
+            group("txouts", btc.obj_bytes("txouts", outs)[0], [], v, tag="mined:count", prefixes=False, maxbrk=2)
+            ins = [{"txid": bytes([k % 251]) * 32, "vout": k, "sig": b"", "seq": k} for k in range(v)]
+            group("txins", btc.obj_bytes("txins", ins)[0], [], v, tag="mined:count", prefixes=False, maxbrk=2)
+            group("witness", btc.cs(v) + bytes(v), [], 0, tag="mined:count", prefixes=False)
+            group("witnesses", bytes(v) + b"\x01\x07", [], v, param=v, tag="mined:count", prefixes=False, maxbrk=2)
+            group("witnesses", bytes(v) + b"\x01\x01\x07", [], v + 1, param=v + 1, tag="mined:count", prefixes=False, maxbrk=2)
+            if 1 <= v <= 120:
+                blk = btc.rand_block(rng, ntx=v)
+                bb, bf = btc.block_bytes(blk)
+                group("block", bb, bf, 1 + sum(nbreak_tx(t) for t in blk["txs"]), tag="mined:count", prefixes=False, maxbrk=3)
+        if v < (1 << 32):
+            op = btc.rand_bytes(rng, 32) + struct.pack("<I", v)
+            group("outpoint", op, [], 0, tag="mined:val", prefixes=False, exts=False)
+            tx = btc.rand_tx(rng, nin=1, nout=1)
+            tx["version"] = v if v < (1 << 31) else v - (1 << 32)
+            tx["locktime"] = v
+            tx["ins"][0]["seq"] = v
+            tx["ins"][0]["vout"] = v
+            tx["outs"][0]["value"] = v
+            tb, tf = btc.tx_bytes(tx)
+            group("transaction", tb, tf, nbreak_tx(tx), tag="mined:val", prefixes=False, exts=False, maxbrk=2)
+        group("txout", struct.pack("<Q", v) + b"\x01\x51", [], 0, tag="mined:val", prefixes=False, exts=False)
     # script lengths across the boundaries, and huge declared lengths
     for ln in [0, 1, 252, 253, 254, 255, 256, 65535, 65536]:
         sb = btc.cs(ln) + btc.rand_bytes(rng, ln)
@@ -603,6 +694,26 @@ def stream_cache(tier, seed):
             else:
                 ops.append("f")
         emit(cap, ops)
+    # numbers mined from the current source as capacity, value size, number of entries and key
+    for v in mined_values(limit=(300 if tier == "quick" else 5000)):
+        if v < 1:
+            continue
+        for cap, szs in ((v, [v, v - 1, 1, v // 2, v + 1, (v + 1) // 2]), (2 * v + 1, [v, v + 1, v - 1, 1]), (v + 3, [v, 1, 2, 3])):
+            szs = [x for x in szs if x >= 1]
+            counter[0] = rng.randrange(1000)
+            ops = []
+            for k in range(8):
+                ops.append("i:%d:%s" % (k, hx(val(szs[k % len(szs)]))))
+                if k % 3 == 2:
+                    ops += ["g:%d" % (k - 2), "c:%d" % k, "l", "f"]
+            ops += ["i:%d:%s" % (v, hx(val(szs[0]))), "g:%d" % v, "i:0:%s" % hx(val(1)), "l", "f"]
+            emit(cap, ops)
+        if v <= 64:
+            # v entries of one byte in a cache of v, v+1 and 2v bytes, then one more
+            for cap in (v, v + 1, 2 * v):
+                counter[0] = rng.randrange(1000)
+                ops = ["i:%d:%s" % (k, hx(val(1))) for k in range(v)] + ["l", "f", "i:%d:%s" % (v, hx(val(1))), "l", "f", "g:0", "g:1", "g:%d" % v]
+                emit(cap, ops)
     # regression corpus (minimised past findings and seeded changes)
     for fpath in sorted(glob.glob(os.path.join(os.path.dirname(os.path.dirname(os.path.abspath(__file__))), "corpus", "*.case"))):
         for ln in open(fpath):
